@@ -93,7 +93,12 @@ def spaces(tier, seed):
     hist = [{"kind": "defhist", "first": f, "type": t} for f in INVALIDS for t in ("min", "max")]
     infcv = [{"kind": "infcv", "nd": nd, "type": t, "inv": inv, "shape": shp}
              for nd in (1, 2, 3) for t in ("min", "max") for inv in (-9999, "NaN") for shp in ((1, 1), (3, 101))]
+    near = [{"kind": "near", "nd": nd, "type": t, "inv": inv, "cmax": cm}
+            for nd in (2, 3, 4) for t in ("min", "max") for inv in (-9999, "NaN") for cm in (1.0, 81.0)]
     return [
+        {"name": "near ties: costs one or two float32 ulps apart around 1 and around 80 (a cost volume whose maximal "
+                 "cost attribute is 1 or 81, as after cbca): the best one wins, not the first of an almost-tie",
+         "level": 1, "cases": near},
         {"name": "volumes holding +/-inf costs next to NaN and finite ones: the step leaves them as they are "
                  "(only the unchanged / carried-over clauses are judged there)", "level": 1, "cases": infcv},
         {"name": "invalid_disparity omitted after another step object was configured with an explicit value", "level": 1,
@@ -355,6 +360,8 @@ def run_case(case):
         return run_long(case)
     if case["kind"] == "infcv":
         return run_infcv(case)
+    if case["kind"] == "near":
+        return run_near(case)
     alpha = [np.nan, 0.0, 1.0, 2.0, 3.0][: case["na"]]
     nd, t, inv = case["nd"], case["type"], case["inv"]
     vecs = vectors(nd, alpha)
@@ -387,6 +394,43 @@ def run_case(case):
     dig = hashlib.sha1(np.nan_to_num(out["disparity_map"].data, nan=-7777.0).tobytes()).hexdigest()[:12]
     sigs = [f"p|{rows}x{cols}|{t}|{inv}|{nd}|{case['axis']}|{case['conf']}|{dig}"] if nontrivial else []
     return {"n": 1, "sigs": sigs, "viol": viol[:5], "trivial": 0 if nontrivial else 1}
+
+
+def run_near(case):
+    """every vector over {NaN, x, next(x), next(next(x))} for x = 1 - 2 ulp and x = 80 - 2 ulp"""
+    from pandora import disparity  # pylint: disable=import-outside-toplevel
+
+    nd, t, inv = case["nd"], case["type"], case["inv"]
+    viol, sigs, n = [], [], 0
+    disps = np.arange(-1, -1 + nd)
+    for base in (np.float32(1.0), np.float32(80.0)):
+        lo = np.nextafter(np.nextafter(base, np.float32(0)), np.float32(0))
+        alpha = [np.nan, lo, np.nextafter(lo, np.float32(100)), base]
+        vecs = vectors(nd, alpha)
+        costs = vecs.reshape(1, len(vecs), nd)
+        cv = D.cost_volume(costs, disps, type_measure=t, cmax=case["cmax"])
+        before = cv.copy(deep=True)
+        wta = disparity.AbstractDisparity(**{"disparity_method": "wta", "invalid_disparity": inv})
+        out = wta.to_disp(cv)
+        sub = []
+        _check(case, costs, disps, t, inv, before, cv, out, sub)
+        for v in sub:
+            v["key"] += "/near-tie"
+        viol += sub
+        n += len(vecs)
+        sigs.append(f"n|{nd}|{t}|{inv}|{case['cmax']}|{float(base)}|"
+                    f"{np.nan_to_num(out['disparity_map'].data, nan=-7777.0).tobytes().hex()[:24]}")
+    # a volume without any computable cost (fully masked tile) that carries confidence bands and flags
+    empty = np.full((2, 3, nd), np.nan, dtype=np.float32)
+    flags = np.array(FLAGS, dtype=np.uint16)[np.arange(6).reshape(2, 3) % len(FLAGS)]
+    before, cv, out = _call(empty, disps, t, inv, 2, flags)
+    sub = []
+    _check(case, empty, disps, t, inv, before, cv, out, sub)
+    for v in sub:
+        v["key"] += "/volume without any cost"
+    viol += sub
+    n += 1
+    return {"n": n, "sigs": sigs, "viol": viol[:4]}
 
 
 def run_infcv(case):
